@@ -12,14 +12,16 @@
 // every reference key and of a few absent keys.
 //
 // kinds (--mode): set_int, set_str, map_str (string -> string), map_mo (uint64 ->
-// move-only value), all (default).
+// move-only value), fixed_int / fixed_str (ConcurrentFixedSwissTable: never grows,
+// an insertion into a saturated table returns end(); a default-constructed one is
+// "empty and full"), all (default).
 //
 // Known-defect patterns get their own violation keys, the affected comparison is
 // skipped (and the model re-synchronised when elements were really lost) and the
 // sequence goes on, so that any *other* divergence is still reported:
-//   size-after-growth-from-default, empty-true-after-growth-from-default,
-//   iteration-stops-at-chained-table, copy-loses-elements, reserve-loses-elements,
-//   rehash-loses-elements
+//   size-mismatch:default-constructed-chained, empty-mismatch:default-constructed-chained,
+//   iteration-short:default-constructed-chained, copy-short:default-constructed-chained,
+//   reserve-drops:default-constructed-chained, rehash-drops:default-constructed-chained
 // Every other key stops the run.
 #include <memory>
 #include <optional>
@@ -32,6 +34,7 @@
 
 namespace {
 
+using babylon::ConcurrentFixedSwissTable;
 using babylon::ConcurrentTransientHashMap;
 using babylon::ConcurrentTransientHashSet;
 using Group = babylon::internal::concurrent_transient_hash_table::Group;
@@ -82,7 +85,7 @@ inline uint64_t str_val_id(const std::string& s) {
 struct SetInt {
   using C = ConcurrentTransientHashSet<uint64_t>;
   using K = uint64_t;
-  static constexpr bool is_map = false, copyable = true;
+  static constexpr bool is_map = false, copyable = true, fixed = false;
   static const char* name() { return "set_int"; }
   static K key(uint64_t id, int style, uint64_t salt) { return int_key(id, style, salt); }
   static const K& key_of(const uint64_t& v) { return v; }
@@ -103,7 +106,7 @@ struct SetInt {
 struct SetStr {
   using C = ConcurrentTransientHashSet<std::string>;
   using K = std::string;
-  static constexpr bool is_map = false, copyable = true;
+  static constexpr bool is_map = false, copyable = true, fixed = false;
   static const char* name() { return "set_str"; }
   static K key(uint64_t id, int style, uint64_t salt) { return str_key(id, style, salt); }
   static const K& key_of(const std::string& v) { return v; }
@@ -125,7 +128,7 @@ struct SetStr {
 struct MapStr {
   using C = ConcurrentTransientHashMap<std::string, std::string>;
   using K = std::string;
-  static constexpr bool is_map = true, copyable = true;
+  static constexpr bool is_map = true, copyable = true, fixed = false;
   static const char* name() { return "map_str"; }
   static K key(uint64_t id, int style, uint64_t salt) { return str_key(id, style, salt); }
   static const K& key_of(const std::pair<const std::string, std::string>& v) { return v.first; }
@@ -152,7 +155,7 @@ struct MapStr {
 struct MapMo {
   using C = ConcurrentTransientHashMap<uint64_t, MoVal>;
   using K = uint64_t;
-  static constexpr bool is_map = true, copyable = false;
+  static constexpr bool is_map = true, copyable = false, fixed = false;
   static const char* name() { return "map_mo"; }
   static K key(uint64_t id, int style, uint64_t salt) { return int_key(id, style, salt); }
   static const K& key_of(const std::pair<const uint64_t, MoVal>& v) { return v.first; }
@@ -175,6 +178,34 @@ struct MapMo {
   static void index_set(C& c, const K& k, uint64_t vid) { c[k] = MoVal(vid); }
 };
 
+
+// ConcurrentFixedSwissTable: same traits, other container
+struct FixedInt : SetInt {
+  using C = ConcurrentFixedSwissTable<uint64_t>;
+  static constexpr bool fixed = true;
+  static const char* name() { return "fixed_int"; }
+  static auto emplace(C& c, const K& k, uint64_t, int variant) {
+    switch (variant % 3) {
+      case 0: return c.emplace(k);
+      case 1: return c.insert(k);
+      default: { K tmp = k; return c.insert(std::move(tmp)); }
+    }
+  }
+};
+struct FixedStr : SetStr {
+  using C = ConcurrentFixedSwissTable<std::string>;
+  static constexpr bool fixed = true;
+  static const char* name() { return "fixed_str"; }
+  static auto emplace(C& c, const K& k, uint64_t, int variant) {
+    switch (variant % 4) {
+      case 0: return c.emplace(k);
+      case 1: return c.emplace(k.c_str());
+      case 2: return c.insert(k);
+      default: { K tmp = k; return c.insert(std::move(tmp)); }
+    }
+  }
+};
+
 ////////////////////////////////////////////////////////////////////////////////
 // internal state used only to *classify* a divergence (never to detect one)
 struct St {
@@ -183,6 +214,13 @@ struct St {
   size_t first_chained = 0;   // elements in the first chained table
   size_t stored = 0;          // elements over all tables (per-table iteration)
 };
+template <typename T, typename H, typename E>
+St state_of(ConcurrentFixedSwissTable<T, H, E>& c) {
+  St s;
+  s.head_dummy = c._controls == Group::s_dummy_controls;
+  s.stored = c.size();
+  return s;
+}
 template <typename C>
 St state_of(C& c) {
   St s;
@@ -212,6 +250,7 @@ struct Session {
   std::unique_ptr<C> c[2];
   Model m[2];
   uint64_t next_id = 1;
+  std::vector<K> gone;  // keys that were dropped by a clear / re-construction (may be re-inserted later)
   std::vector<std::string> oplog;
   uint64_t ophash = 0;
   bool boundary = false;
@@ -252,6 +291,19 @@ struct Session {
                    i, int(s.head_dummy), s.chain, s.first_chained, s.stored, c[i]->size(), m[i].size());
   }
 
+  // fixed table: number of elements it can still take (public API + documented placeholder state)
+  bool fixed_has_room(int i) {
+    if constexpr (Tr::fixed) {
+      if (c[i]->_controls == Group::s_dummy_controls) return false;  // default-constructed: empty and full
+      return m[i].size() < c[i]->bucket_count();
+    } else {
+      return true;
+    }
+  }
+  void remember_gone(int i) {
+    size_t n = 0;
+    for (auto& kv : m[i]) { if (gone.size() >= 512 || ++n > 48) break; gone.push_back(kv.first); }
+  }
   K fresh_key() { return Tr::key(next_id++, style, salt); }
   K absent_key() { return Tr::key((1ull << 40) + rng.below(1000), style, salt); }
   bool pick_existing(int i, K& out) {
@@ -267,6 +319,7 @@ struct Session {
   // rebuild the model of container i from what is physically stored (per-table
   // iteration of the fixed tables), checking it is a sub-map of the old model
   void resync(int i, const char* why) {
+    if constexpr (Tr::fixed) { (void)i; (void)why; return; } else {
     Model nm;
     auto* node = &c[i]->_head;
     while (node) {
@@ -283,6 +336,7 @@ struct Session {
     }
     m[i].swap(nm);
     VF_COUNT("obs:model_resynchronised");
+    }
   }
 
   // ---- the comparison run after every operation
@@ -298,7 +352,7 @@ struct Session {
     size_t sz = cc.size();
     if (sz != mm.size()) {
       if (st.head_dummy && st.chain >= 1 && sz == mm.size() + 16)
-        known("size-after-growth-from-default",
+        known("size-mismatch:default-constructed-chained",
               "size() of a default-constructed set/map is 16 too large once a chained table exists (the placeholder head's bucket count is added)",
               vf::fmt("after %s: size()=%zu, reference size=%zu\n%s", after, sz, mm.size(), st_str(i).c_str()));
       else
@@ -308,7 +362,7 @@ struct Session {
     bool em = cc.empty();
     if (em != mm.empty()) {
       if (st.head_dummy && st.chain >= 1 && em)
-        known("empty-true-after-growth-from-default",
+        known("empty-mismatch:default-constructed-chained",
               "empty() of a default-constructed set/map stays true although elements were inserted (only the placeholder head is consulted)",
               vf::fmt("after %s: empty()=true, reference size=%zu\n%s", after, mm.size(), st_str(i).c_str()));
       else
@@ -340,7 +394,7 @@ struct Session {
       else if (wrongval) unknown("iteration-wrong-mapped-value", "iteration yields a wrong mapped value: " + first_bad, vf::fmt("after %s\n%s", after, st_str(i).c_str()));
       else if (n != mm.size()) {
         if (st.head_dummy && st.chain >= 2 && n == st.first_chained)
-          known("iteration-stops-at-chained-table",
+          known("iteration-short:default-constructed-chained",
                 "iterating a default-constructed set/map that has grown to two or more chained tables stops after the first chained table",
                 vf::fmt("after %s: iterated %zu of %zu elements\n%s", after, n, mm.size(), st_str(i).c_str()));
         else
@@ -366,11 +420,12 @@ struct Session {
         }
       }
       VF_COUNT_N("obs:keys_looked_up", mm.size());
-      for (int j = 0; j < 3; ++j) {
-        K a = absent_key();
+      for (int j = 0; j < 7; ++j) {
+        K a = (j < 3 || gone.empty()) ? absent_key() : gone[rng.below(gone.size())];
+        if (j >= 3) VF_COUNT("obs:cleared_keys_looked_up");
         if (mm.count(a)) continue;
         if (Tr::find(cc, a, j) != cc.end() || cc.contains(a) || cc.count(a) != 0) {
-          unknown("find-returns-absent-key", "find/contains/count reports a key that was never inserted: " + Tr::show(a),
+          unknown("find-returns-absent-key", "find/contains/count reports a key that was never inserted (or was cleared): " + Tr::show(a),
                   vf::fmt("after %s\n%s", after, st_str(i).c_str()));
           break;
         }
@@ -400,17 +455,21 @@ struct Session {
       log(vf::fmt("c%d = C(%zu)", i, n));
       VF_COUNT("obs:op_construct_n");
     }
+    remember_gone(i);
     m[i].clear();
     compare(i, "construct");
   }
   void op_insert(int i, bool fresh) {
     K k;
-    if (fresh || !pick_existing(i, k)) { k = fresh_key(); fresh = true; }
+    if (!gone.empty() && rng.chance(1, 8)) { k = gone[rng.below(gone.size())]; VF_COUNT("obs:op_insert_cleared_key"); }
+    else if (fresh || !pick_existing(i, k)) { k = fresh_key(); fresh = true; }
     uint64_t vid = Tr::is_map ? 1 + rng.below(1000000) : 0;
     int variant = int(rng.below(Tr::variants));
     if constexpr (Tr::is_map) { if (Tr::variant_default_mapped(variant)) vid = 0; }
     auto have = m[i].find(k);
     bool expect_inserted = have == m[i].end();
+    bool expect_full = false;
+    if (expect_inserted && !fixed_has_room(i)) { expect_inserted = false; expect_full = true; boundary = true; VF_COUNT("rare:fixed_table_saturated"); }
     St before = state_of(*c[i]);
     auto r = Tr::emplace(*c[i], k, vid, variant);
     if (expect_inserted) m[i][k] = vid;
@@ -419,9 +478,13 @@ struct Session {
     VF_COUNT("obs:op_insert");
     if (r.second != expect_inserted)
       unknown("insert-flag-differs", vf::fmt("insertion reported inserted=%d, the reference says %d", int(r.second), int(expect_inserted)), st_str(i));
-    else if (r.first == c[i]->end())
-      unknown("insert-returned-end", "insertion into a growing set/map returned end()", st_str(i));
-    else if (!(Tr::key_of(*r.first) == k) || Tr::val_of(*r.first) != m[i][k])
+    else if (expect_full) {
+      if (r.first != c[i]->end())
+        unknown("fixed-insert-into-full-table", "insertion of a new key into a saturated / default-constructed fixed table did not return end()", st_str(i));
+    } else if (r.first == c[i]->end())
+      unknown("insert-returned-end", Tr::fixed ? "insertion into a fixed table that still has free buckets returned end()"
+                                               : "insertion into a growing set/map returned end()", st_str(i));
+    else if (!(Tr::key_of(*r.first) == k) || Tr::val_of(*r.first) != m[i][k] || !(Tr::key_of(*r.first.operator->()) == k))
       unknown("insert-returned-wrong-element", "the iterator returned by an insertion does not point at the key / first inserted mapped value", st_str(i));
     St after = state_of(*c[i]);
     if (after.chain > before.chain) { VF_COUNT("rare:growth_step"); if (before.head_dummy) VF_COUNT("rare:growth_behind_default_head"); }
@@ -468,6 +531,7 @@ struct Session {
     St st = state_of(*c[i]);
     if (st.chain) VF_COUNT("rare:clear_with_chained_tables");
     c[i]->clear();
+    remember_gone(i);
     m[i].clear();
     log(vf::fmt("c%d.clear()", i));
     VF_COUNT("obs:op_clear");
@@ -484,7 +548,7 @@ struct Session {
     VF_COUNT(rehash ? "obs:op_rehash" : "obs:op_reserve");
     St after = state_of(*c[i]);
     if (after.stored != m[i].size() && st.head_dummy && st.chain >= 2 && after.stored == st.first_chained) {
-      known(rehash ? "rehash-loses-elements" : "reserve-loses-elements",
+      known(rehash ? "rehash-drops:default-constructed-chained" : "reserve-drops:default-constructed-chained",
             std::string(rehash ? "rehash" : "reserve") + " of a default-constructed set/map with two or more chained tables keeps only the elements of the first chained table",
             vf::fmt("before: chained_tables=%d first_chained_elems=%zu reference=%zu; after: stored=%zu", st.chain, st.first_chained, m[i].size(), after.stored));
       resync(i, rehash ? "rehash" : "reserve");
@@ -494,9 +558,10 @@ struct Session {
   // after copying container `from` (state `st` before) into `to`
   void after_copy(int from, int to, const St& st, const char* what) {
     St after = state_of(*c[to]);
+    remember_gone(to);
     m[to] = m[from];
     if (after.stored != m[from].size() && st.head_dummy && st.chain >= 2 && after.stored == st.first_chained) {
-      known("copy-loses-elements",
+      known("copy-short:default-constructed-chained",
             "copying a default-constructed set/map with two or more chained tables copies only the elements of the first chained table",
             vf::fmt("%s: source chained_tables=%d first_chained_elems=%zu reference=%zu; copy stores %zu", what, st.chain, st.first_chained, m[from].size(), after.stored));
       resync(to, what);
@@ -537,6 +602,7 @@ struct Session {
       log(vf::fmt("c%d = std::move(c%d)  [move-assign]", to, from));
       VF_COUNT("obs:op_move_assign");
     }
+    remember_gone(to);
     m[to] = std::move(m[from]);
     m[from].clear();
     // the moved-from container is valid but unspecified: clear() it before further use
@@ -544,6 +610,34 @@ struct Session {
     log(vf::fmt("c%d.clear()  [moved-from]", from));
     compare(to, "move");
     compare(from, "clear of moved-from container");
+  }
+  // self copy-assignment / self swap must leave the contents alone
+  void op_self(int i) {
+    bool did = false;
+    St before = state_of(*c[i]);
+    if constexpr (Tr::copyable && !Tr::fixed) {
+      if (rng.chance(1, 2)) {
+        C& self = *c[i];
+        *c[i] = self;
+        log(vf::fmt("c%d = c%d  [self copy-assign]", i, i));
+        did = true;
+      }
+    }
+    if (!did) {
+      c[i]->swap(*c[i]);
+      log(vf::fmt("c%d.swap(c%d)  [self swap]", i, i));
+    }
+    VF_COUNT("obs:op_self");
+    St st = state_of(*c[i]);
+    // a self copy goes through the copy constructor: same known pattern as copy
+    if (did && st.stored != m[i].size() && before.head_dummy && before.chain >= 2 && st.stored == before.first_chained) {
+      known("copy-short:default-constructed-chained",
+            "copying a default-constructed set/map with two or more chained tables copies only the elements of the first chained table",
+            vf::fmt("self copy-assign: source chained_tables=%d first_chained_elems=%zu reference=%zu; result stores %zu", before.chain,
+                    before.first_chained, m[i].size(), st.stored));
+      resync(i, "self copy-assign");
+    }
+    compare(i, "self-assign/self-swap");
   }
   void op_swap() {
     St a = state_of(*c[0]), b = state_of(*c[1]);
@@ -561,7 +655,7 @@ struct Session {
     int len = int(rng.pick<int>({30, 60, 120, 250, 500, 900}));
     for (int i = 0; i < 2; ++i) {
       if (rng.chance(2, 3)) { c[i].reset(new C()); log(vf::fmt("c%d = C()", i)); }
-      else { size_t n = rng.pick<size_t>({16, 32, 64}); c[i].reset(new C(n)); log(vf::fmt("c%d = C(%zu)", i, n)); }
+      else { size_t n = rng.pick<size_t>({16, 32, 64, 256}); c[i].reset(new C(n)); log(vf::fmt("c%d = C(%zu)", i, n)); }
     }
     compare(0, "construct");
     compare(1, "construct");
@@ -583,7 +677,8 @@ struct Session {
       else if (x < 73) op_reserve(i, true);
       else if (x < 81) op_copy(i);
       else if (x < 88) op_move(i);
-      else if (x < 94) op_swap();
+      else if (x < 93) op_swap();
+      else if (x < 95) op_self(i);
       else if (x < 97) op_construct(i);
       else { compare(i, "explicit iterate/size/empty"); log(vf::fmt("iterate/size/empty c%d", i)); }
     }
@@ -624,21 +719,27 @@ int main(int argc, char** argv) {
   wd.classify = []() -> std::string { return "stuck:sequential-operation-never-returned"; };
   wd.start();
   wd.arm(true);
-  uint64_t n = vf::budget(700, 24000);
+  uint64_t n = vf::budget(720, 24000);
   auto want = [&](uint64_t idx) { return a.only_episode < 0 || uint64_t(a.only_episode) == idx; };
   for (uint64_t e = 0; e < n && !g_stop; ++e) {
     if (!want(e)) continue;
     wd.set_context(vf::fmt("case %lu", (unsigned long)e));
-    int kind = int(e % 4);
+    // 4 of 5 cases on the growing set/map kinds, 1 of 5 on the fixed table
+    static const int cycle[10] = {0, 1, 2, 3, 4, 0, 1, 2, 3, 5};
+    int kind = cycle[e % 10];
     if (mode == "set_int") kind = 0;
     else if (mode == "set_str") kind = 1;
     else if (mode == "map_str") kind = 2;
     else if (mode == "map_mo") kind = 3;
+    else if (mode == "fixed_int") kind = 4;
+    else if (mode == "fixed_str") kind = 5;
     switch (kind) {
       case 0: run_case<SetInt>(a.seed, e); break;
       case 1: run_case<SetStr>(a.seed, e); break;
       case 2: run_case<MapStr>(a.seed, e); break;
-      default: run_case<MapMo>(a.seed, e); break;
+      case 3: run_case<MapMo>(a.seed, e); break;
+      case 4: run_case<FixedInt>(a.seed, e); break;
+      default: run_case<FixedStr>(a.seed, e); break;
     }
   }
   wd.arm(false);
